@@ -519,6 +519,11 @@ func (w *simWorld) newAgent(side int, cfg simAgentConfig) (*simAgent, error) {
 		if cfg.nomStride > 1 {
 			// strictly increasing 24-bit values with gaps of more than 2^23 between some of them
 			table := []uint32{5, 0x400000, 0x880000, 0x900000, 0xC80000, 0xF00000, 0xF80000, 0xFC0000, 0xFE0000, 0xFF0000, 0xFFF000, 0xFFFF00, 0xFFFFF0, 0xFFFFFF}
+			if cfg.nomStride == 3 {
+				// an application generator that runs past 2^24: the attribute carries 24 bits, so what the peer sees —
+				// and what counts on both sides — is the value on the wire (0xFFFFF0, 0xFFFFFE, 3, 5, 1, 0x800000, 2, …)
+				table = []uint32{0xFFFFF0, 0xFFFFFE, 0x1000003, 0x1000005, 0x2000001, 0x1800000, 0x3000002, 0x3000002, 0x3000002}
+			}
 			var k atomic.Uint32
 			gen = func() uint32 {
 				i := int(k.Add(1)) - 1
